@@ -266,7 +266,8 @@ func runCase(vm *otto.Otto, l *line) (any, string, error) {
 // ---- live containers ------------------------------------------------------------------
 
 type container struct {
-	mode  string // slice | map | mapint | struct
+	mode  string // slice | array | map | mapint | struct
+	arr   reflect.Value // pointer to a Go array
 	k     string
 	field bool
 	expr  string // JavaScript expression denoting the container
@@ -314,6 +315,28 @@ func mkContainer(vm *otto.Otto, mode string, cont M) (*container, error) {
 		c.sl = s
 		c.expr = "s"
 		return c, vm.Set("s", s.Interface())
+	case "array":
+		c.k, _ = cont["k"].(string)
+		c.ptr, _ = cont["ptr"].(bool)
+		et, err := bridge.ElemType(c.k)
+		if err != nil {
+			return nil, err
+		}
+		c.et = et
+		items, _ := cont["go"].([]any)
+		c.arr = reflect.New(reflect.ArrayOf(len(items), et))
+		for i, it := range items {
+			v, err := bridge.BuildAs(it, et)
+			if err != nil {
+				return nil, err
+			}
+			c.arr.Elem().Index(i).Set(v)
+		}
+		c.expr = "a"
+		if c.ptr {
+			return c, vm.Set("a", c.arr.Interface())
+		}
+		return c, vm.Set("a", c.arr.Elem().Interface())
 	case "map", "mapint":
 		c.k, _ = cont["k"].(string)
 		et, err := bridge.ElemType(c.k)
@@ -380,6 +403,12 @@ func (c *container) goView() any {
 			items = append(items, bridge.ProjectAs(s.Index(i), c.et))
 		}
 		return items
+	case "array":
+		items := []any{}
+		for i := 0; i < c.arr.Elem().Len(); i++ {
+			items = append(items, bridge.ProjectAs(c.arr.Elem().Index(i), c.et))
+		}
+		return items
 	case "map", "mapint":
 		m := bridge.ProjectAs(c.mp, c.mp.Type()).(M)
 		return M{"keys": m["keys"], "vals": m["vals"]}
@@ -405,6 +434,12 @@ func (c *container) goStep(op M) error {
 			ns.Index(n).Set(g)
 			s.Set(ns)
 		}
+	case "array":
+		g, err := bridge.BuildAs(op["g"], c.et)
+		if err != nil {
+			return err
+		}
+		c.arr.Elem().Index(int(op["i"].(float64))).Set(g)
 	case "map", "mapint":
 		kv, err := c.keyOf(op["key"], c.mp.Type().Key())
 		if err != nil {
@@ -633,9 +668,13 @@ type stats struct {
 
 var openDev = []string{}
 
-func cfg(c *core.Ctx, mode string, maxLen int) string {
-	s := fmt.Sprintf("CONSTANTS\n OpenDev = %s\n Tier = %q\n Mode = %q\n MaxLen = %d\nINIT Init\nNEXT Next\nVIEW View\nCHECK_DEADLOCK FALSE\n",
-		core.TLASet(c.Findings.OpenIDs()), c.Tier, mode, maxLen)
+func cfg(c *core.Ctx, mode string, maxLen int, wide bool) string {
+	w := "FALSE"
+	if wide {
+		w = "TRUE"
+	}
+	s := fmt.Sprintf("CONSTANTS\n OpenDev = %s\n Tier = %q\n Mode = %q\n MaxLen = %d\n Wide = %s\nINIT Init\nNEXT Next\nVIEW View\nCHECK_DEADLOCK FALSE\n",
+		core.TLASet(c.Findings.OpenIDs()), c.Tier, mode, maxLen, w)
 	if mode == "cases" {
 		return s + "INVARIANT Emit\n"
 	}
@@ -712,15 +751,23 @@ func Check(c *core.Ctx) (map[string]any, []string, error) {
 	var tlcStats []any
 	var states, trans int64
 	var keepCases, keepHist [][]byte
-	depth := 2
-	if c.Thorough() {
-		depth = 3
-	}
 	type runT struct {
 		mode string
 		max  int
+		wide bool
+		sim  int // > 0: random histories (TLC -simulate), this many per TLC worker
 	}
-	runs := []runT{{"cases", 1}, {"slice", depth}, {"map", depth}, {"mapint", 2}, {"struct", depth}}
+	// quick: every history of length <= 2 over the small operand sets, a few random longer ones;
+	// thorough: length <= 2 over the wide operand sets, length <= 3 over the small ones (slices)
+	// or the wide ones (maps, structs), and random histories of length 6
+	runs := []runT{{"cases", 1, false, 0}, {"slice", 2, false, 0}, {"map", 2, false, 0}, {"mapint", 2, false, 0}, {"struct", 2, false, 0},
+		{"slice", 5, false, 6}, {"map", 5, false, 4}}
+	depth := 2
+	if c.Thorough() {
+		depth = 3
+		runs = []runT{{"cases", 1, true, 0}, {"slice", 2, true, 0}, {"slice", 3, false, 0}, {"map", 3, true, 0}, {"mapint", 3, true, 0}, {"struct", 3, true, 0},
+			{"slice", 6, true, 12}, {"map", 6, true, 12}, {"struct", 6, true, 12}}
+	}
 	byMode := M{}
 	for _, r := range runs {
 		ch := make(chan []byte, 4096)
@@ -728,7 +775,11 @@ func Check(c *core.Ctx) (map[string]any, []string, error) {
 		before := atomic.LoadInt64(&st.cases)
 		go func() { done <- replay(c, r.mode, ch, st, &samples, true) }()
 		var kmu sync.Mutex
-		res, err := tlc.Run(tlc.Opts{SpecDir: c.SpecDir, Module: "C16", Cfg: cfg(c, r.mode, r.max), Workers: c.Workers, Timeout: 40 * time.Minute, Seed: c.Seed},
+		o := tlc.Opts{SpecDir: c.SpecDir, Module: "C16", Cfg: cfg(c, r.mode, r.max, r.wide), Workers: c.Workers, Timeout: 40 * time.Minute, Seed: c.Seed}
+		if r.sim > 0 {
+			o.Simulate, o.Num, o.Depth, o.Workers = true, r.sim, r.max+1, 4
+		}
+		res, err := tlc.Run(o,
 			func(p []byte) {
 				b := make([]byte, len(p))
 				copy(b, p)
@@ -745,7 +796,11 @@ func Check(c *core.Ctx) (map[string]any, []string, error) {
 		close(ch)
 		rej := <-done
 		if res != nil {
-			tlcStats = append(tlcStats, M{"config": fmt.Sprintf("%s depth %d", r.mode, r.max), "generated": res.Generated, "distinct": res.Distinct, "depth": res.Depth, "lines": res.Lines, "wall_s": res.Wall})
+			name := fmt.Sprintf("%s depth %d wide=%v", r.mode, r.max, r.wide)
+			if r.sim > 0 {
+				name = fmt.Sprintf("%s random histories of length %d (simulate, %d per worker)", r.mode, r.max, r.sim)
+			}
+			tlcStats = append(tlcStats, M{"config": name, "generated": res.Generated, "distinct": res.Distinct, "depth": res.Depth, "lines": res.Lines, "wall_s": res.Wall})
 			states += res.Distinct
 			trans += res.Generated
 		}
@@ -755,7 +810,8 @@ func Check(c *core.Ctx) (map[string]any, []string, error) {
 		if rej < 0 {
 			return nil, nil, fmt.Errorf("harness errors in mode %s (see evidence notes)", r.mode)
 		}
-		byMode[r.mode] = atomic.LoadInt64(&st.cases) - before
+		prev, _ := byMode[r.mode].(int64)
+		byMode[r.mode] = prev + atomic.LoadInt64(&st.cases) - before
 	}
 	selfOK := selfTest(c, keepCases, keepHist)
 	if len(samples) == 0 {
